@@ -505,9 +505,9 @@ add('C04.tanh_scale', 'C04', (NMM, "        scale=np.array(1.0 / (1 << (num_bits
 add('C04.softmax_zp', 'C04', (NMM, "          scale=np.array(1.0 / 256),\n          zero_point=np.array(-128),", "          scale=np.array(1.0 / 256),\n          zero_point=np.array(0),"), 'C04.R2', 'softmax int8 zero point 0')
 add('C04.dw_dim', 'C04', (FBU, "    _TFLOpName.DEPTHWISE_CONV_2D: 3,", "    _TFLOpName.DEPTHWISE_CONV_2D: 0,"), 'C04.R3', 'depthwise quantized dimension 0')
 add('C04.bmm_swapped', 'C04', (MMU, "  if adj_y:\n    return rank - 2\n  return rank - 1", "  if adj_y:\n    return rank - 1\n  return rank - 2"), 'C04.R3', 'batch-matmul adj_y arms swapped')
-add('C04.reduce_wrong', 'C04', (MMU, "    if rank_idx != quantized_dim:\n      reduce_dims.append(rank_idx)", "    if rank_idx > quantized_dim:\n      reduce_dims.append(rank_idx)"), 'C04.R3', 'statistics reduced only over the axes after the quantized one')
+add('C04.reduce_wrong', 'C04', (MMU, "    if rank_idx != quantized_dim:\n      reduce_dims.append(rank_idx)", "    if rank_idx > quantized_dim:\n      reduce_dims.append(rank_idx)"), ('C04.R11', 'C04.R13'), 'statistics reduced only over the axes after the quantized one')
 add('C04.init_no_bmm', 'C04', (MMU, "      if op_info.op_name == _TFLOpName.BATCH_MATMUL:\n        quantized_dim = _get_bmm_weight_quantized_dim(\n            tensor_data, adj_y=op_info.op.builtinOptions.adjY\n        )\n      else:\n        quantized_dim = tfl_flatbuffer_utils.TFL_OP_TO_WEIGHT_QUANTIZED_DIM.get(\n            op_info.op_name, None\n        )",
-    "      quantized_dim = tfl_flatbuffer_utils.TFL_OP_TO_WEIGHT_QUANTIZED_DIM.get(\n          op_info.op_name, None\n      )"), 'C04.R3', 'calibration-time statistics ignore the batch-matmul rule (per-tensor stats, per-channel params)')
+    "      quantized_dim = tfl_flatbuffer_utils.TFL_OP_TO_WEIGHT_QUANTIZED_DIM.get(\n          op_info.op_name, None\n      )"), ('C04.R11', 'C04.R13'), 'calibration-time statistics ignore the batch-matmul rule (per-tensor stats, per-channel params)')
 add('C04.bias_weight_only_scale', 'C04', (NMM, "              op_tensor_params[op_input_index].consumers[0].parameters,\n              op_tensor_params[op_weight_index].consumers[0].parameters,", "              op_tensor_params[op_weight_index].consumers[0].parameters,\n              op_tensor_params[op_weight_index].consumers[0].parameters,"),
     'C04.R4', 'bias scale uses the weight scale twice')
 add('C04.tconv_indices', 'C04', (NMM, "  ignored_shape_index = 0\n  weight_index = 1\n  input_index = 2\n  bias_index = 3", "  ignored_shape_index = 0\n  weight_index = 2\n  input_index = 1\n  bias_index = 3"), 'C04.R4', 'transpose-conv weight/input indices swapped')
@@ -515,9 +515,9 @@ add('C04.no_qdim', 'C04', (QTS, "    if transformation_input.quant_params.quanti
     'C04.R5', 'quantized dimension never written to the flatbuffer')
 add('C04.qdim_truthy', 'C04', (QTS, "    if transformation_input.quant_params.quantized_dimension is not None:", "    if transformation_input.quant_params.quantized_dimension:"), (), 'dimension skipped when it is 0: harmless, 0 is the flatbuffer default', kind='twin')
 add('C04.same_input_uses_output', 'C04', (MMU, "      quant_params=input_tensor_params.consumers[0].parameters,\n  )", "      quant_params=None,\n  )"), 'C04.R6', 'same-as-input helper recomputes output parameters from the output statistics')
-add('C04.zp_order', 'C04', (MMU, "      tensor_min_max[\"min\"],\n      tensor_min_max[\"max\"],\n      tensor_quant_config.num_bits,", "      tensor_min_max[\"max\"],\n      tensor_min_max[\"min\"],\n      tensor_quant_config.num_bits,"), 'C04.R3', 'min and max passed in the wrong order')
+add('C04.zp_order', 'C04', (MMU, "      tensor_min_max[\"min\"],\n      tensor_min_max[\"max\"],\n      tensor_quant_config.num_bits,", "      tensor_min_max[\"max\"],\n      tensor_min_max[\"min\"],\n      tensor_quant_config.num_bits,"), 'C04.R13', 'min and max passed in the wrong order')
 add('C04.twin_kw', 'C04', (NMM, "      constraint=_OpQuantConstraint.SAME_AS_OUTPUT_SCALE,\n  )", "      constraint=utils.OpQuantConstraint.SAME_AS_OUTPUT_SCALE,\n  )"), (), 'constraint enum referenced through the module instead of the alias', kind='twin')
-add('C04.dim0_as_none', 'C04', (MMU, "  if quantized_dim is None:\n    return None\n  reduce_dims = []", "  if not quantized_dim:\n    return None\n  reduce_dims = []"), 'C04.R3', 'quantized dimension 0 treated as per-tensor (FC/CONV per-channel statistics collapse)')
+add('C04.dim0_as_none', 'C04', (MMU, "  if quantized_dim is None:\n    return None\n  reduce_dims = []", "  if not quantized_dim:\n    return None\n  reduce_dims = []"), ('C04.R11', 'C04.R13'), 'quantized dimension 0 treated as per-tensor (FC/CONV per-channel statistics collapse)')
 
 # ---------------------------------------------------------------------- C05
 add('C05.nibbles_swapped', 'C05', (QTS, "    even_data = flattened_data[::2] & 0x0F\n    odd_data = np.left_shift(flattened_data[1::2], 4).astype(np.uint8)", "    even_data = np.left_shift(flattened_data[::2], 4).astype(np.uint8)\n    odd_data = flattened_data[1::2] & 0x0F"),
@@ -685,3 +685,49 @@ add('C17.sym_zero_point_offset', 'C17', (UQT, "      zp = np.zeros_like(scale, d
     ('C17.R12', 'C17.R2'), 'symmetric zero point is 1')
 add('C17.asym_no_zero_extension', 'C17', (UQT, "    bound_max = np.maximum(max_value, np.zeros_like(max_value))\n", "    bound_max = max_value\n"),
     ('C17.R12', 'C17.R2'), 'all-negative ranges are not extended to include zero: zero point leaves the integer range')
+
+MMQ = 'algorithms/utils/min_max_quantize_utils.py'
+F14_OLD = """  elif (
+      is_constant
+      and isinstance(quant_params, qtyping.UniformQuantParams)
+      and quant_params.quantized_data is None
+  ):
+"""
+add('C05.f14', 'C05', (MMQ, F14_OLD, "  elif False:\n"), 'C05.R10', 'defect F14 returns: a constant operand keeps imposed parameters without data', control=True)
+add('C03.f14', 'C03', (MMQ, F14_OLD, "  elif False:\n"), 'C03.R13', 'defect F14 returns: a constant operand keeps imposed parameters without data')
+add('C04.imposed_recomputed', 'C04', (MMQ, "  if quant_params is None and tensor_quant_config is not None:\n    if tensor_name not in tensor_name_to_qsv:", "  if (quant_params is None or is_constant) and tensor_quant_config is not None:\n    if tensor_name not in tensor_name_to_qsv:"),
+    ('C04.R12', 'C04.R6'), 'a constant operand ignores the parameters a scale constraint imposes and derives its own')
+add('C04.channel_view_2d', 'C04', (MMQ, """    reduce_dims = _get_reduce_dims(quantized_dim, tensor.shape)
+    return {
+        "min": np.min(tensor_data, axis=reduce_dims, keepdims=True),
+        "max": np.max(tensor_data, axis=reduce_dims, keepdims=True),
+    }""", """    if quantized_dim is None:
+      return {
+          "min": np.min(tensor_data, keepdims=True),
+          "max": np.max(tensor_data, keepdims=True),
+      }
+    n_ch = tensor_data.shape[quantized_dim]
+    view = np.reshape(tensor_data, (n_ch, -1)) if quantized_dim == 0 else np.reshape(tensor_data, (-1, n_ch))
+    shape = [1] * tensor_data.ndim
+    shape[quantized_dim] = n_ch
+    return {
+        "min": np.reshape(np.min(view, axis=1 if quantized_dim == 0 else 0), shape),
+        "max": np.reshape(np.max(view, axis=1 if quantized_dim == 0 else 0), shape),
+    }"""), 'C04.R11', 'per-channel statistics over a 2-D view: wrong for a middle channel axis (batch-matmul adj_y) (seeded b7-C05)')
+add('C04.twin_moveaxis', 'C04', (MMQ, """    reduce_dims = _get_reduce_dims(quantized_dim, tensor.shape)
+    return {
+        "min": np.min(tensor_data, axis=reduce_dims, keepdims=True),
+        "max": np.max(tensor_data, axis=reduce_dims, keepdims=True),
+    }""", """    if quantized_dim is None:
+      return {
+          "min": np.min(tensor_data, keepdims=True),
+          "max": np.max(tensor_data, keepdims=True),
+      }
+    n_ch = tensor_data.shape[quantized_dim]
+    view = np.reshape(np.moveaxis(tensor_data, quantized_dim, 0), (n_ch, -1))
+    shape = [1] * tensor_data.ndim
+    shape[quantized_dim] = n_ch
+    return {
+        "min": np.reshape(np.min(view, axis=1), shape),
+        "max": np.reshape(np.max(view, axis=1), shape),
+    }"""), (), 'the same reduction written correctly over a moved axis', kind='twin')
